@@ -26,6 +26,7 @@ def SEL(maxlen, scope, docset, funcs=False, spell='canon', fset='full'):
 def c01(tier):
     if tier == 'quick':
         return [sel('pairs', 'C01', SEL(2, 'pairs', 'small'), ['LawFailsIffEmpty', 'Emit']), EXTRAS('C01'), SLICES('C01'),
+                sel('one-step-funcs', 'C01', SEL(1, 'triples', 'small', funcs=True, fset='small'), ['Emit']),
                 traceB_eval(2500, 60000, 'C01,C03,C04', EVAL_ATTR)]
     return [sel('pairs', 'C01', SEL(2, 'pairs', 'full'), ['LawFailsIffEmpty', 'Emit'], timeout=1800), SLICES('C01'),
             traceB_eval(2500, 60000, 'C01,C03,C04', EVAL_ATTR),
